@@ -62,12 +62,19 @@ def main():
                             rs = mod.apply_binary_rules(x, y)
                     else:
                         if t.get('unary'):
-                            rs = params(t['unary'])[1](x)
+                            fn = params(t['unary'])[1]
+                            table = fn.keywords['unary_rules']         # the table read_params built (a defaultdict)
+                            o['tn0'] = len(table)
+                            rs = fn(x)
+                            o['tn1'] = len(table)
                         else:
-                            table = {}
+                            import collections
+                            table = collections.defaultdict(list) if t.get('t', 0) % 2 else {}
                             for lhs, rhs in t['table']:
                                 table.setdefault(enc.dec_cat(lhs), []).append(enc.dec_cat(rhs))
+                            o['tn0'] = len(table)
                             rs = mod.apply_unary_rules(x, table)
+                            o['tn1'] = len(table)
                     o['res'] = enc_res(rs)
                     # a caller may do what it likes with the list it got (the property says the function returns the same list
                     # on every call): emptying it and putting something else into it must not affect later calls
